@@ -18,6 +18,11 @@ class Undecided(Exception):
     pass
 
 
+class OutOfWork(Exception):
+    pass
+
+
+WORK = [None]          # optional budget of application evaluations for one check_valid call (None = unlimited)
 DOM_CAP = 600          # largest carrier that is ever enumerated
 VAL_CAP = 60000        # valuations per model
 
@@ -142,6 +147,7 @@ INTERP = {
     'conj': (2, lambda m, T, A, a, b: 1 if a and b else 0, _is(B2)),
     'disj': (2, lambda m, T, A, a, b: 1 if a or b else 0, _is(B2)),
     'IF': (3, lambda m, T, A, c, a, b: a if c else b, _shape_if),
+    'xor': (2, lambda m, T, A, a, b: 1 if bool(a) != bool(b) else 0, _is(B2)),
 }
 
 
@@ -175,6 +181,10 @@ class Model2(Model):
     def ev(self, t, env, bs):
         k = t[0]
         if k == 'app':
+            if WORK[0] is not None:
+                WORK[0] -= 1
+                if WORK[0] < 0:
+                    raise OutOfWork()
             args = []
             h = t
             while h[0] == 'app':
@@ -243,9 +253,19 @@ def models(tyatoms, sizes):
         yield Model2(dict(zip(tyatoms, combo)))
 
 
-def check_valid(hyps, concl, sizes=(1, 2), val_cap=VAL_CAP):
+def check_valid(hyps, concl, sizes=(1, 2), val_cap=VAL_CAP, work=None):
     """Returns ('valid', n_valuations) | ('invalid', countermodel) | ('illtyped', msg) | ('undecided', why).
-    'valid' means: true in all explored finite models."""
+    'valid' means: true in all explored finite models.  work = optional budget of evaluation steps (deterministic)"""
+    WORK[0] = work
+    try:
+        return _check_valid(hyps, concl, sizes, val_cap)
+    except OutOfWork:
+        return ('undecided', 'work budget exhausted')
+    finally:
+        WORK[0] = None
+
+
+def _check_valid(hyps, concl, sizes, val_cap):
     terms = list(hyps) + [concl]
     ann = []
     for t in terms:
